@@ -379,9 +379,14 @@ func vc29Recording_(r *vRand, dir string) *vc29Recording {
 		mode = "legacy"
 	case r.Chance(1, 8):
 		mode = "mixed"
+	case r.Chance(1, 7): // recorded with the stream-id box first, then a legacy / foreign file without it
+		mode = "mixed-rev"
 	}
 	rec := &vc29Recording{kind: mode}
 	nsess := 1 + r.Intn(3)
+	if mode == "mixed-rev" && nsess < 2 {
+		nsess = 2
+	}
 	wall := time.Date(2008+r.Intn(20), time.Month(1+r.Intn(12)), 1+r.Intn(28), r.Intn(24), r.Intn(60), r.Intn(60),
 		r.Intn(1000000)*1000, time.Local).UnixNano()
 	nextID := int64(1)
@@ -405,7 +410,7 @@ func vc29Recording_(r *vRand, dir string) *vc29Recording {
 		for i := range sid {
 			sid[i] = byte(r.Intn(256))
 		}
-		mtxi := mode == "mtxi" || (mode == "mixed" && se > 0)
+		mtxi := mode == "mtxi" || (mode == "mixed" && se > 0) || (mode == "mixed-rev" && se == 0)
 		rel0 := segs[0].start.UnixNano()
 		for _, s := range segs {
 			s.hasMtxi = mtxi
@@ -751,7 +756,16 @@ func TestVerifC29(t *testing.T) {
 				w := httptest.NewRecorder()
 				ctx, _ := gin.CreateTestContext(w)
 				ctx.Request = httptest.NewRequest(http.MethodGet, "/list?"+v.Encode(), nil)
-				s.onList(ctx)
+				func() {
+					defer func() {
+						if rec := recover(); rec != nil {
+							w.Code = 599
+							w.Body.Reset()
+							w.Body.WriteString(fmt.Sprint("panic: ", rec))
+						}
+					}()
+					s.onList(ctx)
+				}()
 
 				desc := map[string]any{"endpoint": "list", "recording": rec.kind, "segments": vc29DescSegs(rec, false),
 					"query": v.Encode(), "status": w.Code}
@@ -835,7 +849,16 @@ func TestVerifC29(t *testing.T) {
 				w := httptest.NewRecorder()
 				ctx, _ := gin.CreateTestContext(w)
 				ctx.Request = httptest.NewRequest(http.MethodGet, "/get?"+v.Encode(), nil)
-				s.onGet(ctx)
+				func() { // a panic in the handler is an observation (the real server exits on it), not a driver failure
+					defer func() {
+						if rec := recover(); rec != nil {
+							w.Code = 599
+							w.Body.Reset()
+							w.Body.WriteString(fmt.Sprint("panic: ", rec))
+						}
+					}()
+					s.onGet(ctx)
+				}()
 
 				desc := map[string]any{"endpoint": "get", "recording": rec.kind, "segments": vc29DescSegs(rec, true),
 					"query": v.Encode(), "status": w.Code, "start_ns": st, "duration_ns": int64(pd)}
